@@ -17,9 +17,9 @@ from harness import coqfmt as cf
 PROP = "C19"
 COQ = dict(imports=["Model.Loader", "Spec.C19"], in_ty="input", out_ty="res obs",
            corr="corr_C19", decide="check_C19", inclass="inclass_C19", model="load_revisions")
-THEOREMS = ["C19_check_sound", "C19_main_partial", "C19_exactly_once_partial", "C19_nothing_else",
-            "C19_exactly_once_refuted", "C19_no_error_partial", "C19_no_error_refuted", "C19_main_refuted",
-            "C19_source_wins", "C19_dedupe", "C19_duplicate_id", "C19_split_clean", "C19_rev_file_names"]
+THEOREMS = ["C19_check_sound", "C19_main_partial", "C19_main_inclass", "C19_exactly_once", "C19_nothing_else",
+            "C19_no_error_partial", "C19_no_error_refuted", "C19_source_wins", "C19_dedupe", "C19_duplicate_id",
+            "C19_split_clean", "C19_rev_file_names"]
 TRUSTED = [
     "file-system semantics assumed by the model (Model/Loader.v): os.walk(top, topdown=True) without followlinks visits "
     "top and every real sub-directory, lists links to directories under dirs and everything else under files; "
@@ -40,11 +40,9 @@ ASSUME = [
     "wf_tree: unique names per directory; symbolic links point (absolute, one hop) at an existing regular file or "
     "directory; an entry named __pycache__ is a real directory holding only files and links to files; no name consisting "
     "of dots followed by py/pyc/pyo",
-    "clean_config: the code's splitting of version_locations gives exactly the documented items (no blank item), every "
-    "item is a relative path that stays inside the tree and is not a package resource, a non-recursive location is not "
-    "named ...__pycache__",
-    "sourceless only: no_foreign_shadow (no non-version file shares its first dot-component with a __pycache__ entry it "
-    "would hide) and no_live_pyo (no .pyo without .py/.pyc next to it) — the complements are the reported finding classes",
+    "clean_config (needed by the correspondence, not by the theorems): every version_locations item is a relative path that "
+    "stays inside the tree and is not a package resource, a non-recursive location is not named ...__pycache__",
+    "sourceless only: no_live_pyo (no .pyo without .py/.pyc next to it) — the complement is the open finding C19-pyo-assert",
 ]
 RULE = ("quick: (a) EXHAUSTIVE: every subset of 8 entries {a.py,a.pyc,a.pyo,__pycache__/a.cpython-312.pyc,a.txt,__init__.py,"
         ".#a.py,sub/b.py} in sd/versions x sourceless x recursive (subsets in a finding class are skipped unless the finding "
@@ -64,7 +62,7 @@ LEVEL_TEXT = ("Machine-checked theorems for ALL well-formed file trees, location
               "from_config splitting / _list_py_dir / _from_filename / _load_revisions loads each expected revision file "
               "exactly once and nothing else, a source wins over compiled forms, overlapping / repeated / symlinked "
               "locations do not change the result, duplicate ids are reported k-1 times; three classes where the real code "
-              "deviates are proved as _refuted witnesses.  The model is compared exactly with the real ScriptDirectory on "
+              "deviates or deviated: the two repaired ones now hold at full strength, the open one (.pyo) is a _refuted witness.  The model is compared exactly with the real ScriptDirectory on "
               "materialised trees on every run.")
 LEVEL_NOTE = ("Trusted: Coq kernel+vm_compute, the hand-written model and the file-system / importlib / re assumptions listed in "
               "trusted_base (exercised but not proved by the correspondence), the Python harness.  Modules without a "
@@ -76,9 +74,9 @@ try:
               if f.get("property") == PROP}
 except Exception:
     _KNOWN = set()
-F_SHADOW, F_PYO, F_BLANK = "C19-stem-shadow", "C19-pyo-assert", "C19-blank-location"
-if os.environ.get("C19_FINDINGS") == "all":      # development aid: also generate the finding classes
-    _KNOWN = {F_SHADOW, F_PYO, F_BLANK}
+F_PYO = "C19-pyo-assert"      # (C19-stem-shadow and C19-blank-location are repaired: a regression is a VIOLATION)
+if os.environ.get("C19_FINDINGS") == "all":      # development aid: also generate the finding class
+    _KNOWN = {F_PYO}
 
 SEPS = ["none", "space", "newline", "os", ":", ";", "bad"]
 SEP_COQ = {"none": "SepNone", "space": "SepSpace", "newline": "SepNewline", "os": "SepOs", ":": "SepColon",
@@ -137,22 +135,6 @@ def all_dirs(tree, pre=()):
             yield from all_dirs(e[2], pre + (e[1],))
 
 
-def foreign_shadowed(tree):
-    """(dir path, cache entry name) pairs hidden by a non-version file (finding class 1, sourceless)"""
-    out = []
-    for d, es in all_dirs(tree):
-        pc = [e for e in es if e[1] == "__pycache__" and e[0] == "d"]
-        if not pc:
-            continue
-        files = [e for e in es if not is_dirlike(tree, e)]
-        stems_all = {stem(e[1]) for e in files}
-        stems_ver = {stem(e[1]) for e in files if is_rev_name(True, e[1])}
-        for c in pc[0][2]:
-            if stem(c[1]) in stems_all and stem(c[1]) not in stems_ver:
-                out.append((d, c[1]))
-    return out
-
-
 def live_pyo(tree):
     out = []
     for d, es in all_dirs(tree):
@@ -165,20 +147,13 @@ def live_pyo(tree):
 
 
 def split_items(sep, locs):
-    """what alembic's from_config makes of the string (re-stated only to classify blank items)"""
+    """what from_config makes of the string (generator only: to see the last component of each location)"""
     import re
-    if not locs:
+    if not locs or sep == "bad":
         return None
     if sep == "none":
-        return re.compile(r", *|(?: +)").split(locs)
-    if sep == "bad":
-        return None
-    return [x.strip() for x in locs.split(SEP_CHAR[sep]) if x]
-
-
-def has_blank(sep, locs):
-    items = split_items(sep, locs)
-    return bool(items) and any(x == "" for x in items)
+        return [x for x in re.compile(r", *|(?: +)").split(locs) if x]
+    return [x.strip() for x in locs.split(SEP_CHAR[sep]) if x.strip()]
 
 
 def drop_broken_links(tree):
@@ -212,7 +187,7 @@ def norm_items(sep, locs):
 
 def repair(h):
     """keep generated cases inside the modelled universe (no broken links; a non-recursive location is not named
-    ...__pycache__) and out of the finding classes that are not recorded (they would be new violations)"""
+    ...__pycache__) and out of the finding class while it is not recorded (it would be a new violation)"""
     tree = h["tree"]
     for _ in range(6):
         before = json.dumps(tree)
@@ -220,10 +195,6 @@ def repair(h):
             for d, nm in live_pyo(tree):
                 dd = lookup(tree, list(d))
                 dd[2][:] = [e for e in dd[2] if e[1] != nm]
-        if h["sl"] and F_SHADOW not in _KNOWN:
-            for d, nm in foreign_shadowed(tree):
-                pc = lookup(tree, list(d) + ["__pycache__"])
-                pc[2][:] = [e for e in pc[2] if e[1] != nm]
         drop_broken_links(tree)
         if json.dumps(tree) == before:
             break
@@ -233,16 +204,12 @@ def repair(h):
 
 
 def in_finding_class(h):
-    return (h["sl"] and (foreign_shadowed(h["tree"]) or live_pyo(h["tree"]))) or has_blank(h["sep"], h["locs"])
+    return bool(h["sl"] and live_pyo(h["tree"]))
 
 
 def classify(h, out):
-    if has_blank(h["sep"], h["locs"]):
-        return F_BLANK
     if h["sl"] and live_pyo(h["tree"]) and isinstance(out, dict) and out.get("err"):
         return F_PYO
-    if h["sl"] and foreign_shadowed(h["tree"]):
-        return F_SHADOW
     return None
 
 
@@ -268,7 +235,7 @@ def exhaustive_single_dir():
                         es.append(F(it, rid))
                         rid += 1
                 h = case("none", None, rec, sl, [D("sd", [D("versions", es)])])
-                if in_finding_class(h) and not ({F_SHADOW, F_PYO} <= _KNOWN):
+                if in_finding_class(h) and F_PYO not in _KNOWN:
                     continue
                 yield h
 
@@ -293,10 +260,7 @@ def exhaustive_loc_strings():
             for rec in (False, True):
                 if ":" in s and sep not in ("os", ":"):
                     continue                      # "pkg:dir" is a package resource: outside the model
-                h = repair(case(sep, s, rec, False, loc_tree()))
-                if has_blank(sep, s) and F_BLANK not in _KNOWN:
-                    continue
-                yield h
+                yield repair(case(sep, s, rec, False, loc_tree()))
 
 
 BASES = ["a", "b", "c"]
@@ -362,6 +326,8 @@ def rand_case(rnd):
     tree = [D("sd", [D("versions", rand_dir_entries(rnd, 1))] if rnd.random() < 0.8 else [])]
     for t in tops:
         tree.append(D(t, rand_dir_entries(rnd, 2)))
+    if rnd.random() < 0.5:
+        tree.append(F(rnd.choice(["setup.py", "a.py", "b.py"]), rnd.randint(1, 6)))
     # symbolic links: to directories at top level / inside directories, to files inside directories
     dirs = real_paths(tree, "d")
     files = real_paths(tree, "f")
@@ -400,7 +366,7 @@ def rand_case(rnd):
         locs = None
     else:
         if sep == "none":
-            joiner = rnd.choice([" ", ",", ", ", "  ", ",  "])
+            joiner = rnd.choice([" ", ",", ", ", "  ", ",  ", " ,", " , ", ",,"])
         elif sep == "bad":
             joiner = ","
         else:
@@ -410,28 +376,18 @@ def rand_case(rnd):
             if rnd.random() < 0.15:
                 joiner = joiner * 2          # empty items are dropped by `if x`
         locs = joiner.join(locs_items)
-        if sep not in ("none", "bad", "space") and rnd.random() < 0.1:
-            locs = locs + SEP_CHAR[sep]
+        if sep != "bad" and rnd.random() < 0.15:
+            tail = SEP_CHAR.get(sep, rnd.choice([" ", ",", ", "]))
+            locs = rnd.choice([locs + tail, tail + locs, locs + tail + " " + tail, locs + " "])
     h = case(sep, locs, rnd.random() < 0.5, rnd.random() < 0.55, tree)
     h["ini"] = rnd.random() < 0.4
-    if has_blank(h["sep"], h["locs"]) and F_BLANK not in _KNOWN:
-        h["locs"] = " ".join(x for x in h["locs"].replace(",", " ").split()) if sep == "none" else h["locs"].strip()
-        if has_blank(h["sep"], h["locs"]):
-            h["locs"] = "v1"
     return repair(h)
 
 
 def finding_witnesses():
-    if F_SHADOW in _KNOWN:
-        yield case("none", None, False, True,
-                   [D("sd", [D("versions", [F("x.txt", 1), D("__pycache__", [F("x.cpython-312.pyc", 2)])])])])
-        yield case("none", None, False, True,
-                   [D("sd", [D("versions", [F("x.py.bak", 1), D("__pycache__", [F("x.cpython-312.pyc", 2)])])])])
     if F_PYO in _KNOWN:
         yield case("none", None, False, True, [D("sd", [D("versions", [F("x.pyo", 1)])])])
-    if F_BLANK in _KNOWN:
-        yield case("none", "v1 ", False, False, [D("sd", []), D("v1", [F("a.py", 1)]), F("setup.py", 2)])
-        yield case(":", "v1: ", False, False, [D("sd", []), D("v1", [F("a.py", 1)]), F("setup.py", 2)])
+        yield case("none", None, True, True, [D("sd", [D("versions", [D("sub", [F("a.pyo", 1), F("b.py", 2)])])])])
 
 
 def generate(tier, seed):
